@@ -20,7 +20,8 @@ RULE = ('Configurations = (routine, n_rdm, n_cond, grouping descriptor for RDMs 
         'numpy.random.randint element drawn by the routine is enumerated by prefix replay '
         '(states = nodes of the choice tree, transitions = its edges, one evaluation = one complete '
         'execution of the real routine judged against the id-list model). Non-trivial = at least one '
-        'draw deviates from the identity resample; distinct = distinct (configuration, draw history).')
+        'draw deviates from the identity resample; distinct = distinct (configuration, draw history).'
+        ' Also: signed integer / float group codes; sources stored as bool / int16 / int64 / float32 under every draw; RDMs.subsample / subsample_pattern called directly with bare values, numpy scalars and containers.')
 ASSUMPTIONS = ['all randomness of the routines enters through numpy.random.randint (tripwires on every '
                'other numpy.random entry point raise a harness error)',
                'values are self-describing codes, so value/label association needs no history']
